@@ -150,29 +150,45 @@ class FuncTrace:
 
 # ---------------------------------------------------------------- process pool
 
-class Timeout(Exception): pass
-def _alarm(signum, frame): raise Timeout()
+class Timeout(BaseException): pass    # not an Exception: "except Exception" clauses inside harnesses and nutils must not swallow a budget
+_DEADLINES = []     # stack of absolute deadlines of the active with_timeout calls (nesting-safe: an inner call re-arms the outer timer on exit)
+def _alarm(signum, frame):
+    now = time.time()
+    if _DEADLINES and now >= min(_DEADLINES) - 1e-3: raise Timeout()
+    _rearm()
+def _rearm():
+    if _DEADLINES: signal.setitimer(signal.ITIMER_REAL, max(min(_DEADLINES) - time.time(), 1e-3))
+    else: signal.setitimer(signal.ITIMER_REAL, 0)
 
 def with_timeout(seconds, fn, *args):
-    old = signal.signal(signal.SIGALRM, _alarm)
-    signal.setitimer(signal.ITIMER_REAL, seconds)
+    signal.signal(signal.SIGALRM, _alarm)
+    _DEADLINES.append(time.time() + seconds)
+    _rearm()
     try:
         return fn(*args)
     finally:
-        signal.setitimer(signal.ITIMER_REAL, 0)
-        signal.signal(signal.SIGALRM, old)
+        _DEADLINES.pop()
+        _rearm()
 
 _WORKER = None
+_CASE_TIMEOUT = [0]
 def _call(item):
+    t0 = time.time()
     try:
-        return _WORKER(item)
+        r = with_timeout(_CASE_TIMEOUT[0], _WORKER, item) if _CASE_TIMEOUT[0] else _WORKER(item)
+        if isinstance(r, dict): r['_wall'] = round(time.time() - t0, 2)
+        return r
+    except Timeout:
+        return dict(key=str(item)[:200], harness_error=f'case budget of {_CASE_TIMEOUT[0]}s exhausted (inconclusive): {str(item)[:300]}')
     except BaseException as e:
         return dict(key=str(item)[:200], harness_error=f'{type(e).__name__}: {e}\n{traceback.format_exc()[-1500:]}')
 
-def pmap(worker, items, jobs, chunksize=4):
-    '''ordered-insensitive parallel map with fork; worker must return picklable data'''
+def pmap(worker, items, jobs, chunksize=4, case_timeout=0):
+    '''ordered-insensitive parallel map with fork; worker must return picklable data.  case_timeout: wall-clock budget per item (0 = none); an item
+    that exhausts it is reported as an inconclusive worker error, never as a verdict'''
     global _WORKER
     _WORKER = worker
+    _CASE_TIMEOUT[0] = case_timeout
     items = list(items)
     if jobs <= 1 or len(items) <= 1:
         for it in items: yield _call(it)
